@@ -32,6 +32,22 @@ CHECKS = {
          "(symbolic θ did not terminate in nlsat); mpmath enclosures with 1e-9 band at concrete angles",
     technique="symbolic execution of the real numpy code on z3 reals + SMT (QF_LRA/QF_NRA)",
     design_ref="DESIGN.md §3 C12"),
+ "C14": dict(
+    text="Bounded symbolic model checking of the real design_space.update / region update / intersect code on a stub "
+         "posterior with symbolic means, covariances and scales: for every index list (every subset in every order, incl. "
+         "single designs) the updated regions are proved equal to mean ± scale·sqrt(var) (rectangle) or (mean, cov, scale) "
+         "(ellipsoid), other designs untouched; intersection semantics and lower<=upper by one-step induction. The stub's "
+         "shape contract is validated concretely against the four real model classes on every run.",
+    note=REAL + "N<=4 designs, m<=3; stub posterior contract (n,m)/(n,m,m); numerical content of real predictions is C15",
+    technique="symbolic execution of the real numpy code on z3 reals + SMT (QF_NRA) per path; concrete contract validation",
+    design_ref="DESIGN.md §3 C14"),
+ "C16": dict(
+    text="Bounded symbolic model checking of the real EmpiricalMeanVarModel: enumerated call skeletons (<=3 batches, "
+         "update/clear interleaved, in/out-of-range and repeated indices, list/set/tuple/ndarray containers, all tracking "
+         "flags) executed with symbolic sample values; predictions proved equal (z3) to an independent accumulator.",
+    note=REAL + "design_count<=3, output_dim 2, histories of <=3 batches of <=3 rows; discrete skeleton enumerated, values symbolic",
+    technique="symbolic execution of the real numpy code on z3 reals + SMT per call skeleton",
+    design_ref="DESIGN.md §3 C16"),
 }
 
 _WIP = "check not built yet (work in progress; will be claimed once its harness exists)"
